@@ -44,7 +44,7 @@ Definition wmsg_eqb (a b : wmsg) : bool :=
 Definition exn_eqb (a b : exn) : bool :=
   match a, b with
   | EProtocolError, EProtocolError | ETransportLost, ETransportLost | EAssertion, EAssertion
-  | EException, EException | ETypeError, ETypeError | EClosed, EClosed => true
+  | EException, EException | ETypeError, ETypeError | EClosed, EClosed | ETypeCheck, ETypeCheck => true
   | EUser x, EUser y => x =? y
   | EAppError x, EAppError y => x =? y
   | _, _ => false
@@ -90,8 +90,10 @@ Definition sub_case_ok (c : sub_case) : bool :=
   list_eqb (list_eqb out_eqb) (model_outputs fl ops) expected.
 
 (* shorthand constructors keep the generated case files small *)
-Definition H (obj : bool) (det : option key) (sg : signature) (b : behaviour) : handler :=
-  {| h_obj := obj; h_details := det; h_sig := sg; h_beh := b |}.
+Definition Sig (fixed : nat) (va : bool) (kwo : list key) (vk : bool) : signature :=
+  {| sg_fixed := fixed; sg_varargs := va; sg_kwonly := kwo; sg_varkw := vk |}.
+Definition H (obj : bool) (det : option key) (sg : signature) (chk : bool) (ann : option anntype) (b : behaviour) : handler :=
+  {| h_obj := obj; h_details := det; h_sig := sg; h_check := chk; h_ann := ann; h_beh := b |}.
 Definition Ev (sub pub : N) (args : list Z) (kw : kwargs) (publisher topic : option N) (ret : option bool) : event :=
   {| e_sub := sub; e_pub := pub; e_args := args; e_kwargs := kw; e_publisher := publisher; e_topic := topic;
      e_retained := ret |}.
